@@ -6,6 +6,7 @@ import (
 	"encoding/json"
 	"fmt"
 	"reflect"
+	"strings"
 	"sync/atomic"
 
 	"github.com/dtn7/cboring"
@@ -101,6 +102,19 @@ func c17Stream(ms []vh.Msg) (key, desc string) {
 		}
 		stream = append(stream, e...)
 		ends = append(ends, len(stream))
+	}
+	// the same stream read in pieces (a socket or a buffered reader hands a message out in several Read calls):
+	// one octet at a time and seven at a time
+	for _, chunk := range []int{1, 7} {
+		cgot, cconsumed, cerr := vh.DecodeStreamChunked(stream, chunk)
+		if cerr != nil {
+			return "C17/tcpcl-own-encoding-rejected:chunked-read:" + ms[len(cgot)%len(ms)].Kind, fmt.Sprintf("stream of %d messages delivered %d octets per Read: message %d failed: %v", len(ms), chunk, len(cgot), cerr)
+		}
+		for i := range ms {
+			if i >= len(cgot) || cconsumed[i] != ends[i] || !ms[i].Equal(cgot[i]) {
+				return "C17/tcpcl-stream-misaligned:chunked-read:" + ms[i].Kind, fmt.Sprintf("stream delivered %d octets per Read: message %d (%s) is not read back as written", chunk, i, ms[i].Kind)
+			}
+		}
 	}
 	got, consumed, err := vh.DecodeStream(stream)
 	if err != nil {
@@ -559,6 +573,52 @@ func runC17(r *ev.Run, thorough bool) int {
 			r.Violation(k, "endpoint", d, c17Case{What: "endpoint", Text: s})
 		} else if a {
 			nAccepted++
+		}
+	}
+	// every single-character insertion, deletion and substitution in a set of valid URIs (text form), and the same
+	// edits of the scheme-specific part inside the CBOR form [1, ssp]
+	edits := map[string]bool{}
+	editChars := []byte("x/:^.~0 \n#")
+	for _, base := range []string{"dtn://foo/bar", "dtn://n/", "dtn:none", "dtn://a.b/~g/x", "ipn:12.34"} {
+		for pos := 0; pos <= len(base); pos++ {
+			for _, ch := range editChars {
+				edits[base[:pos]+string(ch)+base[pos:]] = true
+				if pos < len(base) {
+					edits[base[:pos]+string(ch)+base[pos+1:]] = true
+				}
+			}
+			if pos < len(base) {
+				edits[base[:pos]+base[pos+1:]] = true
+			}
+		}
+	}
+	for sText := range edits {
+		nStr++
+		if k, d, a := c17Endpoint(sText); k != "" {
+			r.Violation(k, "endpoint", d, c17Case{What: "endpoint", Text: sText})
+		} else if a {
+			nAccepted++
+		}
+		if !strings.HasPrefix(sText, "dtn:") {
+			continue
+		}
+		e := &ref.Enc{}
+		e.Array(2)
+		e.UInt(1)
+		e.Text(sText[4:])
+		var eid bpv7.EndpointID
+		if derr := func() (err error) {
+			defer func() {
+				if p := recover(); p != nil {
+					err = fmt.Errorf("panic: %v", p)
+				}
+			}()
+			return cboring.Unmarshal(&eid, bytes.NewReader(e.B))
+		}(); derr == nil {
+			var back bytes.Buffer
+			if merr := cboring.Marshal(&eid, &back); merr != nil || !bytes.Equal(back.Bytes(), e.B) {
+				r.Violation("C17/endpoint-cbor-not-unique", "endpoint", fmt.Sprintf("the CBOR endpoint [1, %q] is accepted as %v, which encodes to other octets (%x): two encodings for one endpoint", sText[4:], eid, back.Bytes()), c17Case{What: "endpoint-cbor", Text: sText, Hex: hex.EncodeToString(e.B)})
+			}
 		}
 	}
 	nEval += nStr
